@@ -24,3 +24,7 @@ def run(ctx):
     ctx.assumptions = P.COMMON_ASSUMPTIONS + [
         "ticks are delivered by a time.Ticker of the extracted period (30 s); the 5 min 30 s bound on the retry period assumes no tick is late by more than the period; long stalls only delay, never discard (theorem C14_pending_own_entry_is_kept holds for every instant)",
         "the re-observation request is posted without blocking and is lost when the outbound queue is full (C17); the harness keeps that queue drained"]
+    # extension X7: the re-observation loop end to end (real cleanup -> real dispatcher, composed model, cadence / amplification / budget monitors)
+    if not ctx.replay:
+        import loop_common
+        loop_common.run(ctx, "C14")
